@@ -129,7 +129,13 @@ def _exec_chunk(items):
             o = obj(s['el'])
             if s['op'] == 'detach':
                 try:
-                    db.delete(o)
+                    if s['el']['k'] == 'ref' and it['tid'] % 2 and o.database is db:
+                        # by VALUE: an equal reference built anew names the member to remove (Reference equality ignores the owner)
+                        from pydbml.classes import Reference
+                        db.delete(Reference(o.type, list(o.col1), list(o.col2), name=o.name, comment=o.comment, on_update=o.on_update,
+                                            on_delete=o.on_delete, inline=o.inline))
+                    else:
+                        db.delete(o)
                 except Exception:
                     pass            # already detached
                 detached = True
